@@ -18,6 +18,14 @@ def run(ctx):
         cases.append(line)
         metas[k] = m
     res = ctx.component('K-LIK', cases, keys={'dims', 'lik'})
+    # the log-argument guard AT the threshold (rate of the observed pair exactly 1e-6, and one ulp beside)
+    fams = ['Zij-u', 'Zij-v', 'undirected-Zij', 'old-u', 'Z-w']
+    thr = [gen.gen_upd_threshold(rng.fork('th%d' % k), 800000 + k, family=fams[k % len(fams)])[0] for k in range(ctx.budget(40, 400) * len(fams))]
+    rthr = ctx.component('K-LIK(threshold-exact)', thr, keys={'dims', 'lik'})
+    if rthr:
+        for mm in rthr['mismatches'][:3]:
+            ctx.violation('threshold', 'on a state whose observed pair has rate exactly 1e-6 (or one ulp beside; all products exact) the likelihood differs from the documented one (pairs at or below 1e-6 contribute only -M)',
+                          {'case': mm.get('case'), 'implementation': mm.get('impl'), 'documented': mm.get('model')})
     traj, tmetas = [], {}
     for k in range(ctx.budget(100, 3000)):
         line, m = gen.gen_e2e(rng.fork('t%d' % k), 600000 + k, maxit_max=45, r_max=2, trace=2, nconv=rng.rint(1, 2))
